@@ -1213,9 +1213,12 @@ Returns:
         cls = self.__class__
         result = cls.__new__(cls)
         memo[id(self)] = result
+        # the wrapped cost updates _fcalls and _evalmon: copy them as one
+        linked = dill.copy((self._cost, self._fcalls, self._evalmon))
+        memo[id(self._fcalls)], memo[id(self._evalmon)] = linked[1:]
         for k, v in self.__dict__.items():
             if v is self._cost:
-                setattr(result, k, tuple(dill.copy(i) for i in v))
+                setattr(result, k, linked[0])
             else:
                 try: #XXX: work-around instancemethods in python2.6
                     setattr(result, k, copy.deepcopy(v, memo))
